@@ -164,3 +164,26 @@ def draw_examples(strategy, n, seedval):
         out.append(x)
     collect()
     return out[:n]
+
+
+POISONS = (1.5e300, -7.25e-300)
+
+
+@contextlib.contextmanager
+def poisoned_empty(value):
+    """numpy.empty returns buffers pre-filled with `value` (float dtypes only): uninitialised memory made visible."""
+    import numpy
+    real = numpy.empty
+
+    def empty(shape, dtype=float, *a, **k):
+        arr = real(shape, dtype, *a, **k)
+        if arr.dtype.kind == "f":
+            arr.fill(value)
+        elif arr.dtype.kind in "iu":
+            arr.fill(-(2 ** 30) + 12345)
+        return arr
+    numpy.empty = empty
+    try:
+        yield
+    finally:
+        numpy.empty = real
